@@ -555,6 +555,18 @@ class Lib:
                 st.pc.append(z3.ForAll(bvs, to_z3(zimp(zand(*[t for t in st.temps]), fact))))
             else:
                 st.assume(fact)
+        # further verified contracts of the same function (variants marked also_at_call_sites): a call site may rely on
+        # each of them once its preconditions hold there (they become obligations)
+        if not bvs:
+            for vname, vc in sorted(self.ctx.registry.contracts.items()):
+                if vname.startswith(rf.qualname + "#") and vc.options.get("also_at_call_sites") and not getattr(vc, "ghost_results", None):
+                    CALLED.add(vname)
+                    vshort = short + "#" + vname.split("#", 1)[1]
+                    for k, rq in enumerate(vc.requires):
+                        for j, g in enumerate(_conjuncts(rq)):
+                            ex.oblige(st, ev(g), "call-pre[%s.%d.%d]" % (vshort, k, j), node, ast.unparse(g)[:160])
+                    for e in vc.ensures:
+                        st.assume(ev(e))
         return result
 
     def _call_vectorized(self, ex, st, rf, c, bind, vec, node, short):
@@ -862,7 +874,8 @@ class Lib:
                 probe = z3.Int("psum!probe")
                 e = s.at(probe)
                 if is_z3(e) or isinstance(e, (int, Fraction)):
-                    skey = ("struct", to_z3(s.n).sexpr(), to_z3(e).sexpr() if is_z3(e) else repr(e), s.ety() == "real")
+                    skey = ("struct", z3.simplify(to_z3(s.n)).sexpr(), z3.simplify(to_z3(e)).sexpr() if is_z3(e) else repr(e),
+                            s.ety() == "real")
             except EngineError:
                 skey = None
         if skey is not None and skey in memo:
@@ -1644,6 +1657,17 @@ class Lib:
         if not (isinstance(keys.width, tuple) and keys.width[0] == "keypos"):
             raise EngineError("key_position of a dictionary without a symbolic iteration order")
         return keys.width[1](*[to_z3(t) for t in key_terms(k)])
+
+    def sf_dumped(self, ex, node, st):
+        """dumped(k): the k-th value the function handed to yaml.dump so far."""
+        k = ex.eval(node.args[0], st)
+        vals = st.ghost.get("__dumped__", [])
+        if not isinstance(k, int) or not (0 <= k < len(vals)):
+            raise EngineError("dumped(%r): the function has dumped %d value(s) on this path" % (k, len(vals)))
+        return vals[k]
+
+    def sf_dump_count(self, ex, node, st):
+        return len(st.ghost.get("__dumped__", []))
 
     def sf_sort_position(self, ex, node, st):
         """sort_position(r, p) for r = sorted(s, key=...): the place in r of the element that stood at position p of s."""
